@@ -64,6 +64,8 @@ class GenDrive(RuleAnalysis):
             nm = _cname(node)
             if nm in ACTION_CTORS or nm in ("isinstance", "remove_traceback_frames_in_place", "client_is_closing", "is_closing", "nullcontext", "timeout", "isawaitable"):
                 return []
+            if self.cannot_raise(node):
+                return []  # logging, pure predicates, the tables of sa/tables.py
             return ["Exception"]
         return []
 
